@@ -339,6 +339,9 @@ def run(ctx):
     from .c13 import rule_meta_charset
     rule_meta_charset(ctx, mir, rid="R01.12")
 
+    # ------------------------------------------------------------------ R01.13 (generic, scoped to this property's anchors)
+    sm.rule_named_plumbing(ctx, mir, "C01", "R01.13", floor=96)
+
     ctx.not_decided += ["bytes of captured text surviving decode/encode (stated exception of the property)", "arithmetic of Arena::shift / init_with (memory module unit tests)"]
     return ("Structural conditions of 'lexemes and raw gaps tile every chunk exactly once': construction sites and the five writers of "
             "Lexer.lexeme_start, EOF leaves of all %d automaton states, commit order and flush ordering on every CFG path of the dispatcher / "
